@@ -270,10 +270,15 @@ def lean_list(items):
 
 def gen(src, consts):
     out = ['namespace Amqp.Gen.Skel\n']
+    acq = []
     for rel, cname, fname in METHODS:
         fn = src.func(rel, cname, fname)
-        out.append('def %s_%s : List String := %s\n' % (cname, fname.strip('_') if fname.startswith('__') else fname,
-                                                       lean_list(skeleton(fn))))
+        sk = skeleton(fn)
+        name = '%s_%s' % (cname, fname.strip('_') if fname.startswith('__') else fname)
+        out.append('def %s : List String := %s\n' % (name, lean_list(sk)))
+        acq.append('("%s", %s)' % (name, lean_list([t[4:] for t in sk if t.startswith('acq:')])))
+    out.append('/-- per method: the locks it acquires itself (`with lock:` / `lock.acquire()`), in source order -/\n')
+    out.append('def acquires : List (String × List String) := [%s]\n' % ', '.join(acq))
     out.append('end Amqp.Gen.Skel\n')
     return ''.join(out)
 
